@@ -338,6 +338,14 @@ example : ∃ f o ro l l' rl rr, precCorrect f l = some l' ∧ isCall o = false 
   ⟨1, JpOps.op_add, JpOps.op_add, .val (.int 1), .val (.int 1), .val (.int 2), .val (.int 3),
     rfl, by decide, by decide, precCorrect_rotate_generated _ _ _ _ _ _ _ rfl (by decide) (by decide)⟩
 
+/-- the hypotheses of `precCorrect_stay_generated` hold for `1 + 2 * 3` (`+` binds more loosely than `*`) -/
+example : precCorrect 2 (.val (.int 1)) = some (.val (.int 1)) ∧ isCall JpOps.op_add = false ∧
+    cmpEval (JpParens.precCorrectCmps.getD 0 default).op JpOps.op_add.prec JpOps.op_mult.prec = false ∧
+    precCorrect 2 (.bin JpOps.op_mult (.val (.int 2)) (.val (.int 3))) =
+      some (.bin JpOps.op_mult (.val (.int 2)) (.val (.int 3))) ∧
+    cmpEval (JpParens.precCorrectCmps.getD 1 default).op JpOps.op_add.prec JpOps.op_mult.prec = false := by
+  refine ⟨rfl, by decide, by decide, by simp [precCorrect], by decide⟩
+
 /-- pins `dropGroup` / `reduceGroups` / the pipeline of `parseEquation`: `reduceGroups` drops a group node iff
 `e.o.code == group.code && (po == nil || (e.left != nil && e.left.o != nil && e.left.o.prec < po.prec))`, then
 descends with `e.o` as the parent op; `MustParseEquation` is `reduceGroups(precedentCorrect(p.readEq()), nil)`. -/
